@@ -3,7 +3,7 @@
 Bounded stand-in / witness search: runs hand-written scenarios (program + signal list + driver behaviour, with the
 outcome the PROPERTY STATEMENT prescribes) against the real crate through its public API, in debug and release.
 A scenario whose observed outcome differs from its expectation is a concrete failing input. Never counted as proof."""
-import json, os, sys, glob
+import json, os, sys, glob, re
 HERE = os.path.dirname(os.path.abspath(__file__))
 sys.path.insert(0, HERE)
 import run_scenario
@@ -34,14 +34,56 @@ def parse_expect(path):
     return exp
 
 
+def _noflags(xs):
+    """the `changed` mark of an input entry (`A=1*`) is only constrained one way by the statement of C06 (unflagged =>
+    same value as in the previous vector), so expectations are compared without it; the rule itself is checked by
+    changed_rule() for the C06 scenarios"""
+    return None if xs is None else [re.sub(r"(=[^ \]\*]+)\*", r"\1", x) for x in xs]
+
+
+def _vec(call):
+    m = re.search(r"\[(.*?)\]", call)
+    d = {}
+    for e in (m.group(1).split() if m else []):
+        if "=" in e:
+            k, v = e.split("=", 1)
+            d[k] = (v.rstrip("*"), v.endswith("*"))
+    return d
+
+
+def changed_rule(path, o):
+    """C06: an input entry that is not flagged carries the value it had in the previous vector handed to the driver;
+    inputs the header omits are never flagged"""
+    bad = []
+    calls = o.get("calls") or []
+    prog = open(path).read().split("\nprogram\n", 1)[-1]
+    header = next((l.split() for l in prog.split("\n") if l.strip() and not l.strip().startswith("#")), [])
+    prev = None
+    for c in calls:
+        v = _vec(c)
+        for k, (val, flag) in v.items():
+            if prev is not None and not flag and k in prev and prev[k][0] != val:
+                bad.append(f"input {k}={val} is not flagged as changed but was {prev[k][0]} in the previous vector ({c})")
+            if flag and k not in header:
+                bad.append(f"input {k} is omitted from the header but flagged as changed ({c})")
+        prev = v
+    return bad
+
+
 def check(path):
     """returns list of mismatch strings (empty = scenario behaves as the property prescribes)"""
     exp = parse_expect(path)
     out = run_scenario.run(path)
     bad = []
+    is_c06 = os.sep + "C06" + os.sep in path
     for prof, o in out.items():
+        if is_c06:
+            bad += [f"{prof}: {b}" for b in changed_rule(path, o)]
         for key, want in exp.items():
-            if key in ("rows", "calls", "vars"):
+            if key in ("rows", "calls"):
+                if _noflags(o.get(key)) != _noflags(want):
+                    bad.append(f"{prof}: {key} = {o.get(key)!r}, expected {want!r}" + (f" [outcome {o.get('outcome')}: {o.get('message','')[:120]}]" if o.get('outcome') != 'ok' else ""))
+            elif key in ("vars",):
                 if o.get(key) != want:
                     bad.append(f"{prof}: {key} = {o.get(key)!r}, expected {want!r}" + (f" [outcome {o.get('outcome')}: {o.get('message','')[:120]}]" if o.get('outcome') != 'ok' else ""))
             elif key == "static":
